@@ -14,7 +14,7 @@ LEVEL = "exploration"
 MANIFEST = dict(
     engine="E5-graphterm", engine_path="vlib/graphterm.py",
     kind="generated DAG specs and fluent programs -> real serialise/deserialise, to_json/from_json, Cascade file format -> independent structural comparison",
-    technique="runtime round-trip monitor: the real serialise/deserialise, to_json/from_json and Cascade.serialise/from_serialised run on generated graphs (incl. fluent programs); the result is read back node by node by an independent walker and compared in both directions with the harness's own spec, in addition to the repository's Graph.__eq__",
+    technique="runtime round-trip monitor: the real serialise/deserialise, to_json/from_json and Cascade.serialise/from_serialised run on generated graphs (incl. fluent programs; for the Cascade file also after the object was written once, changed in place and written again); the result is read back node by node by an independent walker and compared in both directions with the harness's own spec, in addition to the repository's Graph.__eq__",
     text="For each generated graph (unique names; terminal nodes with zero, default or several outputs; multi-output nodes; empty and one-node graphs; fluent programs) and each of the three formats the graph read back must have exactly the nodes, outputs, inputs and payloads of the original; a graph that comes back empty or truncated is a violation even where Graph.__eq__ is lenient.",
     note="JSON format is checked on payloads JSON represents faithfully (None, bool, int, finite float, str, lists, str-keyed dicts); callables in the Cascade format are compared by reference (importable) or by code object (lambdas).",
 )
